@@ -15,6 +15,9 @@ from .logic import Ctx, simplify_bool
 from . import values as V
 
 
+FORCED_RLIMIT = 150000
+
+
 class Unsupported(Exception):
     """Construct outside the executor's subset: the function is undecided by proof."""
 
@@ -138,7 +141,9 @@ class Executor:
         """True / False if the path condition forces the truth value of c (definite unsat of the other side)."""
         for side, other in ((True, z3.Not(c)), (False, c)):
             sol = z3.Solver()
-            sol.set("timeout", 150)
+            # resource limit instead of a wall-clock limit: the set of explored paths (hence the set of
+            # obligation ids) must not depend on how busy the machine is
+            sol.set("rlimit", FORCED_RLIMIT)
             for h in self.ctx.hyps:
                 sol.add(h)
             sol.add(other)
@@ -640,8 +645,10 @@ class Executor:
                 self.assume(z3.Not(c))
 
 
-def explore(modinfo, fndef, registry, make_env, function_name, loops=None, owner=None, max_paths=400):
-    """Run all paths of a function.  make_env(ex) -> env (deterministic).  Returns list of Outcome."""
+def explore(modinfo, fndef, registry, make_env, function_name, loops=None, owner=None, max_paths=400, on_outcome=None):
+    """Run all paths of a function.  make_env(ex) -> env (deterministic).  Returns list of Outcome.
+    on_outcome(out) poses the postcondition of a finished path; it runs INSIDE the exploration so that
+    a lemma posed there (e.g. applying another contract to the result) may fork like the body does."""
     work = [[]]
     outcomes = []
     npaths = 0
@@ -662,6 +669,11 @@ def explore(modinfo, fndef, registry, make_env, function_name, loops=None, owner
             out = Outcome("raise", r.info, exc=r.exc, ctx=ctx, env=env, ex=ex, node=r.node)
         except PathEnd:
             out = Outcome("end", ctx=ctx, env=env, ex=ex)
+        if on_outcome is not None and out.kind != "end":
+            try:
+                on_outcome(out)
+            except PathEnd:
+                pass
         work.extend(ex.pending)
         outcomes.append(out)
     return outcomes
